@@ -345,3 +345,34 @@ func verifLemmaBitStringRoundTrip(b BitString) (r BitString, err error) {
 // @ func BerMarshalWithParams [C03 C11]
 // @   trusted
 // @   ensures result1 != nil ==> len(result0) == 0
+
+// ---- composite encoders over the `encoder` interface (C04) -------------------------------------------
+
+// specEncLen: total size of the first n children
+func specEncLen(s structEncoder, n int) int {
+	if n <= 0 {
+		return 0
+	}
+	return specEncLen(s, n-1) + s[n-1].Len()
+}
+
+// A constructed value is as long as its children together, and its children are written one after the
+// other, each into exactly its own Len() octets (X.690: the contents of a constructed encoding are the
+// complete encodings of its components). Physical size bound as a precondition: no prefix of the children
+// exceeds 2^44 octets.
+//@ func (structEncoder).Len [C04]
+//@   requires forall i int :: 0 <= i && i < len(s) ==> s[i] != nil
+//@   requires forall n int :: 0 <= n && n <= len(s) ==> 0 <= specEncLen(s, n) && specEncLen(s, n) <= 1<<44
+//@   ensures result == specEncLen(s, len(s))
+//@   loop 0: invariant 0 <= ITER && ITER <= len(s) && size == specEncLen(s, ITER)
+
+// (structEncoder).Encode - children written one after the other, each into its own Len() octets - is not
+// under contract: its loop needs the prefix sums to be monotone, which the solvers do not decide here.
+
+//@ func (*berTypeEncoder).Len [C04]
+//@   requires b != nil && b.tagAndLen != nil && b.value != nil
+//@   ensures result == b.tagAndLen.Len()+b.value.Len()
+
+//@ func (*berTypeEncoder).Encode [C04]
+//@   requires b != nil && b.tagAndLen != nil && b.value != nil && b.tagAndLen.Len() >= 0 && b.value.Len() >= 0 && b.tagAndLen.Len()+b.value.Len() <= len(dst)
+//@   modifies elems(dst[:b.tagAndLen.Len()+b.value.Len()])
